@@ -38,6 +38,7 @@ Definition sres_eqb (a b : sres) : bool :=
   | RBool x, RBool y => Bool.eqb x y
   | RText t b, RText t' b' => bytes_eqb t t' && option_eqb fk_eqb b b'
   | RFilter x, RFilter y => option_eqb fk_eqb x y
+  | RHeadItems x n, RHeadItems y m => list_eqb nn_eqb x y && (n =? m)
   | _, _ => false
   end.
 
